@@ -1,5 +1,6 @@
 import Mustache.Model.World
 import Mustache.Driver.World
+import Mustache.Proofs.RowsPackInv
 /-!
 # C05 — changes made while locked are isolated, then applied at the outermost unlock in program order
 
@@ -313,33 +314,61 @@ example : (packs [Cmd.assign e0 0 none, .remove e0 0, .destroy ⟨1, 0, 0⟩, .a
 
 /-! ## flush order -/
 
-/-- apply a list of packs in order, accumulating the callbacks -/
-def applyPacks (info : CompId → CompInfo) (acc : WM × List Cb) (ps : List (List Cmd)) : WM × List Cb :=
-  ps.foldl (fun (acc : WM × List Cb) p =>
-    let (w', c) := acc.1.applyPack info p
-    (w', acc.2 ++ c)) acc
+open Mustache.Proofs.Rows (applyPacks detached SameCtl)
 
 /-- `onUnlock`: all buffers are detached (emptied) first; then buffer 0's packs in log order, then
-buffer 1's, …; finally the temporaries are dropped. Equivalently: ONE left fold of `applyPack` over
-the concatenation `packs buffers[0] ++ packs buffers[1] ++ …`. -/
+buffer 1's, …; finally the temporaries are dropped. Equivalently: ONE left fold of `applyPack`
+(`applyPacks`) over the concatenation `packs buffers[0] ++ packs buffers[1] ++ …`. -/
 theorem flush_order (info : CompId → CompInfo) (w : WM) :
     w.flush info =
       (let r := applyPacks info ({ w with buffers := w.buffers.map (fun _ => []) }, [])
                   (w.buffers.map packs).flatten
-       ({ r.1 with temps := [] }, r.2)) := by
-  unfold WM.flush applyPacks
-  simp only
-  generalize ({ w with buffers := w.buffers.map (fun _ => []) }, ([] : List Cb)) = acc
-  generalize w.buffers = bufs
-  induction bufs generalizing acc with
-  | nil => rfl
-  | cons b bs ih =>
-    simp only [List.foldl_cons, List.map_cons, List.flatten_cons, List.foldl_append]
-    exact ih _
+       ({ r.1 with temps := [] }, r.2)) :=
+  Mustache.Proofs.Rows.flush_eq info w
 
 theorem applyPacks_append (info : CompId → CompInfo) (acc : WM × List Cb) (p q : List (List Cmd)) :
     applyPacks info acc (p ++ q) = applyPacks info (applyPacks info acc p) q := by
   simp [applyPacks, List.foldl_append]
+
+/-- `applyCommandPack` never writes the buffers, the lock depth, the dependency table, the reserved-id
+counter or the shared pool: whatever the pack -/
+theorem applyPack_keeps_control (info : CompId → CompInfo) (w : WM) (pack : List Cmd) :
+    (w.applyPack info pack).1.buffers = w.buffers ∧ (w.applyPack info pack).1.lockDepth = w.lockDepth ∧
+    (w.applyPack info pack).1.deps = w.deps ∧ (w.applyPack info pack).1.nextEntityId = w.nextEntityId :=
+  let h := Mustache.Proofs.Rows.applyPack_ctl info w pack
+  ⟨h.buffers, h.lockDepth, h.deps, h.nextEntityId⟩
+
+/-- after the flush every buffer is empty (same number of buffers), the temporaries are gone and the
+lock depth is what it was -/
+theorem flush_leaves_buffers_empty (info : CompId → CompInfo) (w : WM) :
+    (w.flush info).1.buffers = w.buffers.map (fun _ => []) ∧
+    (∀ b ∈ (w.flush info).1.buffers, b = []) ∧
+    (w.flush info).1.buffers.length = w.buffers.length ∧
+    (w.flush info).1.temps = [] ∧ (w.flush info).1.lockDepth = w.lockDepth := by
+  have h := Mustache.Proofs.Rows.flush_ctl info w
+  refine ⟨h.1, ?_, by rw [h.1]; simp, h.2.1, h.2.2.1⟩
+  intro b hb
+  rw [h.1] at hb
+  simp at hb
+  exact hb.2
+
+/-- the outermost `unlock`: depth 0 afterwards, everything recorded has been consumed -/
+theorem unlock_outer_result (info : CompId → CompInfo) (w : WM) (hd : w.lockDepth = 1) :
+    (w.unlock info).1.lockDepth = 0 ∧ (∀ b ∈ (w.unlock info).1.buffers, b = []) ∧
+    (w.unlock info).2.1 = true := by
+  rw [unlock_outer info w hd]
+  have h := flush_leaves_buffers_empty info { w with lockDepth := 0 }
+  exact ⟨h.2.2.2.2, h.2.1, rfl⟩
+
+example : (lockedW.unlock cat).1.buffers = [[], []] ∧ (lockedW.unlock cat).1.lockDepth = 0 := by
+  constructor
+  · have := (unlock_outer_result cat lockedW (by decide)).2.1
+    have hl : (lockedW.unlock cat).1.buffers.length = 2 := by decide
+    match hb : (lockedW.unlock cat).1.buffers, hl with
+    | [a, b], _ =>
+      rw [hb] at this
+      rw [this a (by simp), this b (by simp)]
+  · decide
 
 /-- the commands the flush consumes are exactly the recorded ones, thread by thread, in program order -/
 theorem flush_consumes_all (w : WM) :
